@@ -123,7 +123,7 @@ fn chains(tier: Tier) -> BoxedStrategy<Case> {
             if spec.needs_positive_input() {
                 cfg = cfg.positive();
             }
-            gen::stream(cfg).prop_map(move |xs| Case::of(spec.clone(), xs))
+            gen::stream_nz(cfg).prop_map(move |xs| Case::of(spec.clone(), xs))
         })
         .boxed()
 }
